@@ -20,7 +20,7 @@ import (
 // VerifC18Enforce: Enforce (ontology traversal subject -> parent roles -> child policies, policy retrieval,
 // allowRequest) grants exactly when every requested object is covered by a policy that grants the action and is
 // attached to a role currently assigned to the subject — for two roles, two policies with arbitrary attachment
-// and content, arbitrary assignments of two subjects, and one assign/unassign/attach/delete-role/delete-policy step before
+// and content, arbitrary assignments of two subjects, and one assign/unassign/attach/delete-role/delete-policy/re-create-policy step before
 // the check.
 func VerifC18Enforce() {
 	ctx := context.Background()
@@ -111,7 +111,7 @@ func VerifC18Enforce() {
 	// one change right before the check
 	step := verifLen("step", 0, verifParam("steps", 3))
 	if verifParam("quicksteps", 0) == 1 {
-		verifAssume(step == 0 || step == 1 || step == 4)
+		verifAssume(step == 0 || step == 1 || step == 4 || step == 6)
 	}
 	switch step {
 	case 1:
@@ -139,6 +139,11 @@ func VerifC18Enforce() {
 	case 5: // delete a policy
 		i := verifLen("step.policy", 0, 1)
 		must(pw.Delete(ctx, pkeys[i]))
+		attached[i] = 0
+	case 6: // delete a policy and create a policy under the same key again: the new one is attached to nothing
+		i := verifLen("step.policy", 0, 1)
+		must(pw.Delete(ctx, pkeys[i]))
+		must(pw.Create(ctx, &pols[i]))
 		attached[i] = 0
 	}
 	req := access.Request{Subject: subjects[0], Action: actions[verifLen("request.action", 0, 1)]}
